@@ -70,6 +70,20 @@ Theorem C17_source_is_le_proto : forall p, xl_protocol_isLowEntropyProtocol p = 
 Proof. exact xl_isLowEntropyProtocol_eq_model. Qed.
 Print Assumptions C17_source_is_le_proto.
 
+(* the mode table and the encoded length as the source computes them (error results are [true] in the translation's last
+   component; lowEntropyEncodedPayloadLen divides by the table's value, so its translation is partial - None = panic -
+   and the theorem shows it never is) *)
+Theorem C17_source_mode_params : forall mode,
+  xl_protocol_buildLowEntropyParams mode =
+  match mode_params mode with Some (c, w) => ((c, w), false) | None => ((0, 0), true) end%Z.
+Proof. exact xl_buildLowEntropyParams_eq_mode_params. Qed.
+Print Assumptions C17_source_mode_params.
+
+Theorem C17_source_enc_len : forall n mode, (- 2 ^ 61 < n < 2 ^ 61)%Z ->
+  xl_protocol_lowEntropyEncodedPayloadLen n mode = Some (of_res (enc_len n mode)).
+Proof. exact xl_lowEntropyEncodedPayloadLen_eq_enc_len. Qed.
+Print Assumptions C17_source_enc_len.
+
 (* the position-by-position rendering of the Intel SDM pseudo code (bit index m, counter k; base/Bits64.v
    pdep_intel / pext_intel) equals the structural definition: for every operand width n on the mask's low n bits,
    hence at width 64 for every x and every mask < 2^64 *)
